@@ -167,9 +167,9 @@ extern "C" void harness() {
 #elif ENTRY == 31
         { std::unordered_set<VertexIndex> S; S.insert(bad); (void)algorithms::getSubgraphWithRemap(g, S); }
 #elif ENTRY == 32   /* the out-of-range member is met after a valid one */
-        { ASSUME(n > 0); std::unordered_set<VertexIndex> S; S.insert(nd(n)); S.insert(bad); (void)algorithms::getSubgraph(g, S); }
+        { ASSUME(n > 0); std::unordered_set<VertexIndex> S; unsigned sq[2]; sq[0] = nd(n); sq[1] = bad; vh_set_with_order(S, sq, 2); (void)algorithms::getSubgraph(g, S); }
 #elif ENTRY == 33
-        { ASSUME(n > 0); std::unordered_set<VertexIndex> S; S.insert(nd(n)); S.insert(bad); (void)algorithms::getSubgraphWithRemap(g, S); }
+        { ASSUME(n > 0); std::unordered_set<VertexIndex> S; unsigned sq[2]; sq[0] = nd(n); sq[1] = bad; vh_set_with_order(S, sq, 2); (void)algorithms::getSubgraphWithRemap(g, S); }
 #elif ENTRY == 40
         (void)algorithms::findVertexPredecessors(g, bad);
 #elif ENTRY == 41
